@@ -52,4 +52,18 @@ PROPS = {
              "mount.FS over three mem.FS and a Sub view; invariant evaluated after every step over all 39 candidate paths (depth<=3 over a,b,ab) of every view; distinct = distinct term",
         level_text="TODO", level_note="TODO", assumptions=[],
     ),
+    "C16": dict(
+        imports="Base.Path KV.Types KV.FS KV.Handle KV.Run KV.Corr", check="C16_check", ctype="kv_case",
+        show="run kv_init (fst c)", n=dict(quick=800, thorough=8000), chunk=60,
+        rule="directories with 0..300 children (files and directories, one of them a mount point in the mount layer) listed by name and through a handle with page-size "
+             "sequences {-1, 0, k+1, k, k-1, huge, mixed 1..7}; layers mem, keyvalue/plain store, mount, inside a mount, Sub, cache, tar, os.FS; distinct = distinct (layer, children, pages)",
+        level_text="TODO", level_note="TODO", assumptions=[],
+    ),
+    "C18": dict(
+        imports="Txn.Txn Txn.TxnCorr", check="C18_check", ctype="C18_case",
+        show="let '(which, init, calls, _, _, _) := c in trun which (t_begin init) calls", n=dict(quick=3000, thorough=60000), chunk=500,
+        rule="random call sequences (1..10 calls of Get/GetHandler/Set/SetHandler/Abort/Commit over 3 keys, handlers that succeed, fail, abort, abort+fail) on the mem store's "
+             "transaction (through the verif hook) and on the serial fallback over a plain Store, after a committed initial transaction; distinct = distinct term",
+        level_text="TODO", level_note="TODO", assumptions=[],
+    ),
 }
